@@ -42,6 +42,10 @@ def leads_to_complaint(a, node, succ_index):
     """from the given edge every path reaches a complaint push (or an aborting throw) before it
     reaches a loop head or leaves the function normally"""
     pushes = set(nid for nid, ev in a.all_events('mcall') if is_complaint_push(ev))
+    # the dealer-based sharing registers a complaint in a flag that is broadcast right after
+    T = a.T
+    pushes |= set(nid for nid, ev in a.all_events('write') if ev[1][0] == 'v' and 'complaint' in ev[1][2] and
+                  (T.node(ev[2]) == ('bool', True) or (T.node(ev[2])[0] == 'disj' and any(T.node(x) == ('bool', True) for x in T.node(ev[2])[1:]))))
     start = node.succ[succ_index]
     seen = set()
     stack = [start]
@@ -205,6 +209,31 @@ def run(ctx):
             (ctx.ok if okd else ctx.bad)('R15d', key, '%s = sum over QUAL of the received sub-shares, modulo q' % mname if okd else
                                          '%s is not accumulated as 0 + sum over the members of QUAL of the received sub-shares modulo q' % mname, f)
     r15e(ctx)
+    # the dealer-based sharing (receiving side): the same share check, complaint kept in a flag
+    f = [g_ for g_ in prog.by_q.get('PedersenVSS::Share', []) if g_.get('body') and any(p_['n'] == 'dealer' for p_ in g_['params'])]
+    if not f:
+        raise AnalysisBroken('anchor PedersenVSS::Share(dealer, ...) not found')
+    f = sorted(f, key=lambda g_: -len(g_['params']))[0]
+    a = ctx.analysis(f)
+    T = a.T
+    g, h = T.mk('this', 'g'), T.mk('this', 'h')
+    sites = 0
+    for n_ in a.cfg.rpo:
+        if n_.kind != 'branch':
+            continue
+        for i, sx in enumerate(n_.succ):
+            for fa in plain(T, a.gen.get((n_.id, i)) or ()):
+                fn_ = T.node(fa)
+                if fn_[0] == 'rel' and fn_[1] == '!=' and sum(1 for x in fn_[2:] if commitment(T, x, g, h)) == 1:
+                    sites += 1
+                    nb += 1
+                    key = 'R15b:PedersenVSS::Share#%d' % sites
+                    okc, where = leads_to_complaint(a, n_, i)
+                    if okc:
+                        ctx.ok('R15b', key, 'a share pair that does not match the dealer\'s commitments raises the complaint flag', f, line=n_.line)
+                    else:
+                        ctx.bad('R15b', key, 'the share check can fail without a complaint being registered (path reaches line %d first)' % (where.line if where is not None else 0), f, line=n_.line)
+    ctx.floor('R15b:PedersenVSS', sites, 2)
     ctx.floor('R15a', na, 4)
     ctx.floor('R15b', nb, 8)
     ctx.floor('R15c', nc, 4)
